@@ -150,6 +150,21 @@ static int policy_tok;
 BusClientPolicy *bus_context_create_client_policy (BusContext *c, DBusConnection *conn, DBusError *e) { if (sfail ()) { e->name = DBUS_ERROR_NO_MEMORY; e->message = "m"; return 0; } return (BusClientPolicy *) &policy_tok; }
 void bus_client_policy_unref (BusClientPolicy *p) { }
 void bus_context_check_all_watches (BusContext *c) { n_watch_checks++; }
+/* ---- OP 11 environment: tearing a connection down ---- */
+static int cfg_max_incomplete = 64;
+int bus_context_get_max_incomplete_connections (BusContext *c) { return cfg_max_incomplete; }
+void bus_dispatch_remove_connection (DBusConnection *c) { }
+dbus_bool_t dbus_connection_set_watch_functions (DBusConnection *c, DBusAddWatchFunction a, DBusRemoveWatchFunction r, DBusWatchToggledFunction t, void *d, DBusFreeFunction f) { return 1; }
+dbus_bool_t dbus_connection_set_timeout_functions (DBusConnection *c, DBusAddTimeoutFunction a, DBusRemoveTimeoutFunction r, DBusTimeoutToggledFunction t, void *d, DBusFreeFunction f) { return 1; }
+void dbus_connection_set_unix_user_function (DBusConnection *c, DBusAllowUnixUserFunction fn, void *d, DBusFreeFunction f) { }
+void dbus_connection_set_windows_user_function (DBusConnection *c, DBusAllowWindowsUserFunction fn, void *d, DBusFreeFunction f) { }
+void dbus_connection_set_dispatch_status_function (DBusConnection *c, DBusDispatchStatusFunction fn, void *d, DBusFreeFunction f) { }
+void _dbus_connection_set_pending_fds_function (DBusConnection *c, DBusPendingFdsChangeFunction cb, void *d) { }
+void bus_containers_remove_connection (BusContainers *cs, DBusConnection *c) { }
+BusContainers *bus_context_get_containers (BusContext *c) { return 0; }
+static int data_cleared;
+dbus_bool_t dbus_connection_set_data (DBusConnection *c, dbus_int32_t slot, void *data, DBusFreeFunction f) { if (data == 0) data_cleared++; return 1; }   /* the connection data block is not freed in the model */
+
 DBusCredentials *_dbus_connection_get_credentials (DBusConnection *c) { return 0; }
 dbus_bool_t _dbus_string_init (DBusString *s) { return !sfail (); }
 void _dbus_string_free (DBusString *s) { }
@@ -450,6 +465,35 @@ void harness (void)
                 VF_ASSERT (seen > last, "messages for one connection are sent in the order they were staged"); last = seen; } }
         if (dst[0] == dst[1] && dst[1] == dst[2]) VF_WITNESS_OPT ("three messages to one connection");
       }
+  }
+#elif OP == 11
+  {
+    /* C10 / C13: tearing down a connection keeps the bus's connection accounting right: an incomplete (never said Hello) connection leaves the incomplete
+     * list and the accept watches are re-evaluated — whenever the number of incomplete connections drops, so that listening resumes after the
+     * max_incomplete_connections gate had closed; a completed one leaves the completed list and its user's count. */
+    DBusList *lp = calloc (1, sizeof (DBusList)); int inc = vf_bool (), n0, i0, u0; static char nm0[] = ":1.9";
+#define l0 (*lp)
+    VF_ASSUME (lp != 0);
+    have_uid = vf_bool (); cfg_max_incomplete = vf_range (1, 1000);
+    conns.n_completed = n0 = vf_range (1, 1000); conns.n_incomplete = i0 = vf_range (1, 1000); uid_count = u0 = vf_range (1, 1000); VF_ASSUME (i0 <= cfg_max_incomplete);
+    l0.data = cnp[0]; l0.next = l0.prev = &l0; cdp[0]->link_in_connection_list = &l0;
+    if (inc) { conns.incomplete = &l0; cdp[0]->name = 0; } else { conns.completed = &l0; cdp[0]->name = nm0; }
+    cdp[0]->n_match_rules = 0; cdp[0]->services_owned = 0; cdp[0]->pending_unix_fds_timeout = 0; cdp[0]->link_in_monitors = 0; cdp[0]->transaction_messages = 0; cnp[0]->refs = 2;
+    n_watch_checks = 0;
+    bus_connection_disconnected (cnp[0]);
+    if (inc)
+      {
+        VF_ASSERT (conns.n_incomplete == i0 - 1 && conns.n_completed == n0 && conns.incomplete == 0 && uid_count == u0, "an incomplete connection leaves the incomplete list and count only");
+        VF_ASSERT (n_watch_checks >= 1, "the accept watches are re-evaluated whenever the number of incomplete connections drops (listening resumes after the gate had closed)");
+        VF_WITNESS_OPT ("incomplete connection torn down");
+      }
+    else
+      {
+        VF_ASSERT (conns.n_completed == n0 - 1 && conns.n_incomplete == i0 && conns.completed == 0 && uid_count == u0 - (have_uid ? 1 : 0), "a completed connection leaves the completed list, the count and its user's count");
+        VF_WITNESS_OPT ("completed connection torn down");
+      }
+    VF_ASSERT (data_cleared == 1 && cnp[0]->refs == 1 && cdp[0]->link_in_connection_list == 0, "the bus's per-connection data and its reference are released once");
+#undef l0
   }
 #elif OP == 4
   {
